@@ -102,6 +102,8 @@ struct Slot {
     alpha: Option<Alpha>,
     tlfu: Option<crate::shadow::TlfuShadow>,
     sampled: Option<crate::shadow::SampledShadow>,
+    /// eviction-callback invocations of the last event
+    last_cb: Vec<(u32, u64)>,
 }
 
 fn panic_desc(p: Box<dyn std::any::Any + Send>) -> (String, bool, bool) {
@@ -237,6 +239,7 @@ pub fn execute(t: &Trace, opts: Opts) -> ExecResult {
                 alpha: None,
                 tlfu,
                 sampled,
+                last_cb: Vec::new(),
             });
         }
         Ok(Err(e)) => {
@@ -351,6 +354,11 @@ pub fn execute(t: &Trace, opts: Opts) -> ExecResult {
                         op,
                         format!("original returned {} but its clone returned {}", vals[0].show(), vals[1].show()),
                     );
+                }
+                let (c0, c1) = (&slots[0].as_ref().unwrap().last_cb, &slots[1].as_ref().unwrap().last_cb);
+                if c0 != c1 {
+                    let d = format!("the original's eviction callback saw {:?} but the clone's saw {:?} for the same operation", c0, c1);
+                    run.viol("C16", "lockstep_callbacks", step, op, d);
                 }
                 let (a, b) = (
                     slots[0].as_ref().and_then(|s| s.alpha.as_ref()),
@@ -492,6 +500,7 @@ fn do_fork(run: &mut Run, slots: &mut [Option<Slot>], step: i64, op: &Op) {
                 alpha: None,
                 tlfu,
                 sampled,
+                last_cb: Vec::new(),
             });
         }
         Ok(None) => {}
@@ -622,7 +631,28 @@ fn est_script(code: Code) -> Vec<Vec<EstStep>> {
 
 /// one event against one subject, with all per-step oracles
 fn do_event(run: &mut Run, slots: &mut [Option<Slot>], ti: usize, step: i64, ev: &Event) -> Val {
-    let op = &ev.op;
+    // boundary hashes of the count-min sketch are resolved against the real row seeds
+    let resolved: Option<Op> = if run.t.header.kind == Kind::Tlfu
+        && ev.op.fam >= 1
+        && matches!(ev.op.code, Code::TInc | Code::TEst | Code::TContains)
+    {
+        slots[ti].as_ref().and_then(|s| s.alpha.as_ref()).and_then(|a| a.est.as_ref()).map(|e| {
+            let mut o = ev.op.clone();
+            let row = (o.fam as usize - 1) % 4;
+            o.v = match e.seeds.get(row) {
+                Some(seed) => seed ^ e.mask,
+                None => e.mask,
+            };
+            o.fam = 0;
+            o
+        })
+    } else {
+        None
+    };
+    if resolved.is_some() {
+        run.stats.bump("tlfu_boundary_hash_ops");
+    }
+    let op = resolved.as_ref().unwrap_or(&ev.op);
     let h = &run.t.header;
     let kind = h.kind;
     let oracles = run.opts.oracles && !run.faulted;
@@ -699,6 +729,11 @@ fn do_event(run: &mut Run, slots: &mut [Option<Slot>], ti: usize, step: i64, ev:
     }
     run.harvest(step, op);
     let oracles = run.opts.oracles && !run.faulted;
+    let cb_log: Vec<(u32, u64)> = match cb_id {
+        Some(id) => world::cb_take(id),
+        None => Vec::new(),
+    };
+    slots[ti].as_mut().unwrap().last_cb = cb_log.clone();
 
     // ---- post-state ---------------------------------------------------------------------------
     let post = {
@@ -733,7 +768,7 @@ fn do_event(run: &mut Run, slots: &mut [Option<Slot>], ti: usize, step: i64, ev:
         }
         if val != Val::Unsupported && !val.is_panic() {
             // distinct (state, event, outcome) triples
-            if run.opts.collect_distinct {
+            if run.opts.collect_distinct && kind.n_lists() > 0 {
                 let hsh = crate::rng::mix(
                     crate::rng::mix(pre.shape_hash(), op.code as u64 ^ ((op.fam as u64) << 8)),
                     val.class() as u64 ^ ((post.shape_hash() & 0xFFFF) << 8),
@@ -754,8 +789,8 @@ fn do_event(run: &mut Run, slots: &mut [Option<Slot>], ti: usize, step: i64, ev:
                 }
                 run.stats.bump("readonly_checked");
             }
-            if let Some(id) = cb_id {
-                check_c15(run, id, pre, post, &val, step, op);
+            if cb_id.is_some() {
+                check_c15(run, &cb_log, pre, post, &val, step, op);
             }
             probes(run, kind, pre, post, op, &val);
         }
@@ -782,6 +817,11 @@ fn do_event(run: &mut Run, slots: &mut [Option<Slot>], ti: usize, step: i64, ev:
         if let Some(post) = post.as_ref() {
             let sl = slots[ti].as_mut().unwrap();
             let mut stats = std::mem::take(&mut run.stats);
+            let pre_shape = sl.tlfu.as_ref().map(|s| s.shape()).or_else(|| sl.sampled.as_ref().map(|s| s.shape()));
+            if let (Some(ps), true) = (pre_shape, run.opts.collect_distinct) {
+                let hsh = crate::rng::mix(crate::rng::mix(ps, op.code as u64 ^ ((op.fam as u64) << 8)), val.class() as u64);
+                stats.distinct.insert(hsh);
+            }
             let r = if let Some(sh) = sl.tlfu.as_mut() {
                 let s = sl.s.as_mut();
                 Some(("C11", catch_unwind(AssertUnwindSafe(|| world::suspended(|| sh.step(s, op, &val, post, &mut stats))))))
@@ -1263,8 +1303,8 @@ fn check_c02_event(run: &mut Run, slots: &mut [Option<Slot>], ti: usize, pre: &A
 }
 
 /// C15: callback log delta == entries that left the cache in this step
-fn check_c15(run: &mut Run, id: u32, pre: &Alpha, post: &Alpha, _val: &Val, step: i64, op: &Op) {
-    let log = world::cb_take(id);
+fn check_c15(run: &mut Run, log: &[(u32, u64)], pre: &Alpha, post: &Alpha, _val: &Val, step: i64, op: &Op) {
+    let log: Vec<(u32, u64)> = log.to_vec();
     let mut departed: Vec<(u32, u64)> = Vec::new();
     // order in which they leave: LRU end first for purge/resize; single otherwise
     for e in pre.lists[0].ents.iter().rev() {
